@@ -13,6 +13,7 @@ import (
 	"net"
 	"sort"
 	"sync"
+	"sync/atomic"
 	"time"
 
 	"github.com/andydunstall/piko/pkg/log"
@@ -126,7 +127,18 @@ type vhWatcher struct {
 // the recording must not be the thing that breaks
 var vhEvMu sync.Mutex
 
+// slow-watcher mode of the concurrency probes: a callback of the named kind ("all" = every kind) takes this long before it
+// is recorded. The real code calls its watcher with the state lock held, so a slow subscriber delays everybody but can
+// never be overtaken; a callback that runs outside the lock is overtaken by the state changes of other goroutines.
+var vhSlowKind atomic.Value // string
+var vhSlowNs atomic.Int64
+
 func (w *vhWatcher) add(kind, id, k, v string) {
+	if d := vhSlowNs.Load(); d > 0 {
+		if sk, _ := vhSlowKind.Load().(string); sk == "all" || sk == kind {
+			time.Sleep(time.Duration(d))
+		}
+	}
 	vhEvMu.Lock()
 	defer vhEvMu.Unlock()
 	*w.events = append(*w.events, vhEvent{N: w.n, Kind: kind, ID: vhHex(id), K: vhHex(k), V: vhHex(v)})
@@ -599,6 +611,12 @@ func (w *vhWorld) step(op vhOp) (obs vhObs) {
 		iters := op.I
 		if iters <= 0 {
 			iters = 2000
+		}
+		if op.E != "" {
+			// slow subscriber: callbacks of kind E take D ns
+			vhSlowKind.Store(op.E)
+			vhSlowNs.Store(op.D)
+			defer vhSlowNs.Store(0)
 		}
 		var wg sync.WaitGroup
 		wg.Add(3)
